@@ -110,10 +110,19 @@ def random_instance(rng, P, mode, kinds, maxM=3, maxn=2, h1=True):
         w = QI[M - 1] if rng.random() < 0.4 else [z() for _ in range(M)]
         return dict(kind='rk', M=M, n=n, dt=rng.choice([1, 2, 3][:P - 2] if P > 3 else [1, 2]), rightnode=True, collupdate=False, A=A_,
                     B=zero(n, n), c=0, Q=[list(r) for r in QI], QI=QI, QE=zero(M, M), w=list(w), u0=[z() for _ in range(n)], U=mat(M, n), tau=[])
+    if kind == 'multi':
+        return dict(kind='multi', M=M, n=n, dt=rng.choice([1, 2, 3][:P - 2] if P > 3 else [1, 2]), rightnode=rc in ('TF', 'TT'), collupdate=rc in ('TT', 'FT'),
+                    A=mat(n, n), B=mat(n, n), c=0, Q=mat(M, M), QI=low(mat(M, M)), QE=low(mat(M, M)), w=[z() for _ in range(M)],
+                    u0=[z() for _ in range(n)], U=mat(M, n), tau=rng.choice([[], mat(M, n)]))
     inst = dict(kind=kind, M=M, n=n, dt=rng.choice([1, 2, 3][:P - 2] if P > 3 else [1, 2]), rightnode=rc in ('TF', 'TT'), collupdate=rc in ('TT', 'FT'),
                 A=A, B=zero(n, n) if kind == 'impl' else mat(n, n), c=0 if kind == 'impl' else z(),
                 Q=mat(M, M), QI=zero(M, M) if kind == 'expl' else low(mat(M, M)), QE=zero(M, M) if kind == 'impl' else slow(mat(M, M)),
                 w=[z() for _ in range(M)], u0=[z() for _ in range(n)], U=mat(M, n), tau=rng.choice([[], mat(M, n)]))
+    if mode == 'sweep' and kind == 'impl' and rng.random() < 0.3:
+        # k-dependent preconditioner: the sweeper refreshes QI for sweep index k; the model uses the k-th matrix
+        inst['QIK'] = [low(mat(M, M)) for _ in range(3)]
+        inst['k'] = rng.choice([1, 2])
+        inst['QI'] = inst['QIK'][inst['k']]
     if mode == 'transfer':
         Mc, nc = rng.randint(1, M), rng.randint(1, n)
         Rc = mat(Mc, M)
